@@ -43,6 +43,9 @@ X64 = [
     _t("call", "call {sym}", "e800000000", "call", (1, 4)),
     _t("ijmp", "jmp *%rax", "ffe0", "ijmp"),
     _t("icall", "call *%rax", "ffd0", "icall"),
+    # indirect transfers through a memory operand that names a symbol (input listings only)
+    _t("icallm", "call *{sym}(%rip)", "ff1500000000", "icall", (2, 4), patch=False),
+    _t("ijmpm", "jmp *{sym}(%rip)", "ff2500000000", "ijmp", (2, 4), patch=False),
     _t("ret", "ret", "c3", "ret"),
 ]
 
